@@ -16,7 +16,8 @@ int __wrap_fclose(FILE* f) { n_fclose++; return __real_fclose(f); }
 static char dir[600];
 static const char* MODES[] = { "", "rb", "wb", "r+b", "w+b", "ab", "a+b" };
 static char pbuf[700];
-static const char* path_of(int p) { snprintf(pbuf, sizeof pbuf, "%s/f%d", dir, p); return pbuf; }
+/* path 9 lies in a directory that does not exist: opening it fails in every mode */
+static const char* path_of(int p) { snprintf(pbuf, sizeof pbuf, p == 9 ? "%s/nodir/f%d" : "%s/f%d", dir, p); return pbuf; }
 static unsigned char pat(long seed, long k) { return (unsigned char)((seed * 31 + k * 7 + (k / 256)) % 256); }
 
 static unsigned char* rbuf; static size_t rcap;
